@@ -196,6 +196,18 @@ CHECKS.update({
         note='"registered" includes functions bound by partial or called from a registered function of the module',
         design='5/C17'),
 })
+CHECKS.update({
+    'C16': dict(
+        technique='TLC model checking of LogDecode_MC (trace-identifier Unpack = inverse of Pack over every defined '
+                  'namespace x type x flag subset x pc_style x booleans; key table bijection); records for key subsets '
+                  '(empty, singletons, all pairs, complements, full, random) decoded directly and through a v3 dump, '
+                  'projected and validated against LogDecode!Xf / DefaultOf in TLC',
+        text='The bit packing is enumerated completely over the defined values; the 2^31 key subsets are covered by '
+             'all subsets of size <= 2 and >= 30 plus seeded random ones, each field checked against its key.',
+        note='not all 2^31 subsets; values distinct per key; decomposed-message argument rules as read from the format; '
+             'host time zone set to non-UTC during the check',
+        design='5/C16'),
+})
 PENDING = {}
 
 ALL = ['C%02d' % i for i in range(1, 21)]
